@@ -1,0 +1,166 @@
+//! Verification hooks. Only compiled with `--cfg flurry_verif`.
+//!
+//! Every hook forwards to one process-global callback installed by the
+//! verification harness and does nothing while none is installed. Hooks fire
+//! *before* the access they announce; they never change what the crate does.
+use std::sync::atomic::{AtomicUsize, Ordering};
+
+/// Signature of the harness callback: an event kind and its arguments.
+pub type Hook = fn(u32, &[usize]);
+
+static HOOK: AtomicUsize = AtomicUsize::new(0);
+
+/// `reclaim::Atomic::load`: `[addr, ordering, type name ptr, type name len]`.
+pub const LOAD: u32 = 1;
+/// `reclaim::Atomic::store`: `[addr, ordering, type name ptr, type name len, new]`.
+pub const STORE: u32 = 2;
+/// `reclaim::Atomic::swap`: `[addr, ordering, type name ptr, type name len, new]`.
+pub const SWAP: u32 = 3;
+/// `reclaim::Atomic::compare_exchange`: `[addr, success << 8 | failure, type name ptr, type name len, new, current]`.
+pub const CAS: u32 = 4;
+/// `reclaim::Atomic::clone` (relaxed load): `[addr, ordering, type name ptr, type name len]`.
+pub const CLONE: u32 = 5;
+/// `Shared::boxed` is about to allocate: `[size, align, type name ptr, type name len]`.
+pub const BOXED: u32 = 10;
+/// `Shared::deref` / `Shared::as_ref`: `[ptr, 0, type name ptr, type name len]`.
+pub const DEREF: u32 = 11;
+/// `Shared::into_box` / `Atomic::into_box`: `[ptr, 0, type name ptr, type name len]`.
+pub const INTO_BOX: u32 = 12;
+/// An object is handed to the collector: `[ptr, with_values, type name ptr, type name len]`.
+pub const RETIRE: u32 = 13;
+/// A bin or tree-bin mutex is about to be locked: `[mutex addr]`.
+pub const LOCK_PRE: u32 = 20;
+/// `std::thread::park` is about to be called: `[]`.
+pub const PARK_PRE: u32 = 21;
+/// `Thread::unpark` is about to be called: `[addr of the Thread handle]`.
+pub const UNPARK_PRE: u32 = 22;
+/// A spin / yield site: `[site id]`.
+pub const SPIN: u32 = 23;
+/// An access to a plain atomic word is about to happen:
+/// `[addr, word id, access kind, ordering, operand a, operand b]`.
+pub const WORD: u32 = 30;
+/// A site event (after the state change it reports): `[site id, a, b, c]`.
+pub const SITE: u32 = 40;
+
+/// Word ids for [`WORD`].
+pub mod word {
+    /// `HashMap::size_ctl`
+    pub const SIZE_CTL: usize = 1;
+    /// `HashMap::transfer_index`
+    pub const TRANSFER_INDEX: usize = 2;
+    /// `HashMap::count`
+    pub const COUNT: usize = 3;
+    /// `TreeBin::lock_state`
+    pub const LOCK_STATE: usize = 4;
+    /// `TreeNode::red`
+    pub const RED: usize = 5;
+}
+
+/// Access kinds for [`WORD`].
+pub mod access {
+    /// load
+    pub const LOAD: usize = 1;
+    /// store of operand a
+    pub const STORE: usize = 2;
+    /// compare_exchange(operand a -> operand b)
+    pub const CAS: usize = 3;
+    /// fetch_add of operand a (fetch_sub is reported with the negated operand)
+    pub const ADD: usize = 4;
+}
+
+/// Site ids for [`SITE`].
+pub mod site {
+    /// a resize of the table at `a` (length `b`) was started
+    pub const RESIZE_START: usize = 1;
+    /// a thread joined the resize of the table at `a`
+    pub const RESIZE_JOIN: usize = 2;
+    /// a thread left the resize of the table at `a`; `b` = 1 if it is the finishing thread
+    pub const RESIZE_LEAVE: usize = 3;
+    /// bin `b` of the table at `a` was forwarded (migrated)
+    pub const BIN_MIGRATED: usize = 4;
+    /// the table at `b` (length `c`) replaced the table at `a` as the current table
+    pub const TABLE_PUBLISHED: usize = 5;
+    /// a table of `b` bins at `a` was installed by initialisation or presize
+    pub const TABLE_INIT: usize = 6;
+    /// bin `b` of the table at `a` was converted to a tree bin
+    pub const TREEIFIED: usize = 7;
+    /// bin `b` of the table at `a` was converted back to a list bin
+    pub const UNTREEIFIED: usize = 8;
+    /// spin site in `init_table`
+    pub const SPIN_INIT: usize = 100;
+    /// spin site in `TreeBin::contended_lock`
+    pub const SPIN_CONTENDED: usize = 101;
+}
+
+/// Installs (or removes) the harness callback.
+pub fn set_hook(h: Option<Hook>) {
+    HOOK.store(h.map_or(0, |f| f as usize), Ordering::SeqCst);
+}
+
+/// Forwards an event to the harness callback, if one is installed.
+#[inline]
+pub fn at(kind: u32, args: &[usize]) {
+    let h = HOOK.load(Ordering::Relaxed);
+    if h != 0 {
+        // safety: only `set_hook` writes HOOK, and only with a valid `Hook`.
+        let f: Hook = unsafe { std::mem::transmute::<usize, Hook>(h) };
+        f(kind, args);
+    }
+}
+
+/// Numeric code of a memory ordering (Relaxed 0, Release 1, Acquire 2, AcqRel 3, SeqCst 4).
+#[inline]
+pub fn ord(o: Ordering) -> usize {
+    match o {
+        Ordering::Relaxed => 0,
+        Ordering::Release => 1,
+        Ordering::Acquire => 2,
+        Ordering::AcqRel => 3,
+        _ => 4,
+    }
+}
+
+/// Announces an access to a `reclaim::Atomic<T>` / `Shared<T>`.
+#[inline]
+pub fn ptr_op<T>(kind: u32, addr: usize, ordering: usize, extra: &[usize]) {
+    if HOOK.load(Ordering::Relaxed) == 0 {
+        return;
+    }
+    let name = std::any::type_name::<T>();
+    let mut args = [0usize; 6];
+    args[0] = addr;
+    args[1] = ordering;
+    args[2] = name.as_ptr() as usize;
+    args[3] = name.len();
+    let n = extra.len().min(2);
+    args[4..4 + n].copy_from_slice(&extra[..n]);
+    at(kind, &args[..4 + n]);
+}
+
+/// Announces an access to one of the plain atomic control words.
+#[inline]
+pub fn word_op<A>(w: &A, id: usize, acc: usize, o: Ordering, a: isize, b: isize) {
+    at(
+        WORD,
+        &[
+            w as *const A as usize,
+            id,
+            acc,
+            ord(o),
+            a as usize,
+            b as usize,
+        ],
+    );
+}
+
+/// Announces that the given mutex is about to be locked.
+#[inline]
+pub fn before_lock(m: &parking_lot::Mutex<()>) {
+    at(LOCK_PRE, &[m as *const _ as usize]);
+}
+
+/// Reports a site event.
+#[inline]
+pub fn site_ev(id: usize, a: usize, b: usize, c: usize) {
+    at(SITE, &[id, a, b, c]);
+}
